@@ -580,6 +580,21 @@ def w_projections(ctx, rng, i):
         got = np.asarray(c.apply(x.copy()), dtype=float)
         if got.shape != exp.shape or not (tx.maxdiff(got, exp) <= 1e-8 * max(1.0, float(np.abs(exp).max()))):
             ctx.fail("composition_law_violated", cls=type(c).__name__, mech="change_of_dimension:" + name.split("(")[0], err=tx.maxdiff(got, exp) if got.shape == exp.shape else None)
+    # a step that keeps only some of the coordinates after a dimension-specific one (a chain): the same points come out whether
+    # they are pushed through at once or in batches of any size
+    dims = [[0, 1], [0], [d - 1], [1, 0], list(range(d))[::-1]][rng.integers(0, 5)]
+    try:
+        ch = B.compose_before(mt.WithDims(dims if len(dims) > 1 or rng.random() < 0.5 else dims[0]))
+        expw = np.asarray(B.apply(x.copy()), dtype=float)[:, dims]
+        for bs in (None, 1, 3, len(x), len(x) + 2):
+            ctx.tap("dimension_slicing_chain_in_batches", "calls"); ctx.tap("dimension_slicing_chain_in_batches", "checked")
+            got = np.asarray(ch.apply(x.copy()) if bs is None else ch.apply(x.copy(), batch_size=bs), dtype=float)
+            if got.shape != expw.shape or tx.maxdiff(got, expw) > 1e-9 * max(1.0, float(np.abs(expw).max())):
+                ctx.fail("composition_law_violated", cls=type(ch).__name__, mech="dimension_slicing_link:batch_size_%s" % ("none" if bs is None else "given"),
+                         got_shape=list(got.shape), expected_shape=list(expw.shape))
+                break
+    except Exception as e:
+        ctx.fail("compose_raised", cls=type(B).__name__, mech="dimension_slicing_link:" + type(e).__name__, error=repr(e)[:160])
     for v, h in ((P, hP), (A, hA), (B, hB)):
         if tx.maxdiff(v.h_matrix, h) > 0:
             ctx.fail("compose_modified_an_operand", cls=type(v).__name__, mech="change_of_dimension")
